@@ -784,85 +784,151 @@ func (c *Ctx) k4Reversal(fn *ssa.Function, name string) {
 }
 
 func (c *Ctx) k4ReversalIn(fn *ssa.Function) (bool, string, bool) {
-	fd := c.P.Decl(fn)
-	info := c.P.Info(fn)
 	ok := false
 	var detail string
-	// accepted idiom: for i, j := 0, len(e)-1; i < j; i, j = i+1, j-1 { e[i], e[j] = e[j], e[i] }
-	ast.Inspect(fd.Body, func(x ast.Node) bool {
-		fs, isFor := x.(*ast.ForStmt)
-		if !isFor || fs.Init == nil || fs.Cond == nil || fs.Post == nil {
-			return true
+	var reversed ssa.Value // the buffer that holds the reversed bytes
+	for _, l := range core.Loops(fn) {
+		// i: 0, +1 ; optional mirror j: len(B)-1, -1
+		var iPhi, jPhi *ssa.Phi
+		var jInit ssa.Value
+		for _, ins := range l.Header.Instrs {
+			phi, isPhi := ins.(*ssa.Phi)
+			if !isPhi {
+				break
+			}
+			init, step := phiInit(phi, l), phiStep(phi, l)
+			sb, isB := step.(*ssa.BinOp)
+			if init == nil || !isB || sb.X != ssa.Value(phi) {
+				continue
+			}
+			k, isK := core.ConstInt(sb.Y)
+			if !isK || k != 1 {
+				continue
+			}
+			switch {
+			case sb.Op == token.ADD:
+				if z, isZ := core.ConstInt(init); isZ && z == 0 {
+					iPhi = phi
+				}
+			case sb.Op == token.SUB:
+				jPhi, jInit = phi, init
+			}
 		}
-		init, ok1 := fs.Init.(*ast.AssignStmt)
-		post, ok2 := fs.Post.(*ast.AssignStmt)
-		cond, ok3 := fs.Cond.(*ast.BinaryExpr)
-		if !ok1 || !ok2 || !ok3 || len(init.Lhs) != 2 || len(post.Rhs) != 2 || len(fs.Body.List) != 1 {
-			return true
+		if iPhi == nil {
+			continue
 		}
-		i, j := types.ExprString(init.Lhs[0]), types.ExprString(init.Lhs[1])
-		z := bigOf(info, init.Rhs[0])
-		hi := types.ExprString(init.Rhs[1])
-		swap, isSwap := fs.Body.List[0].(*ast.AssignStmt)
-		// second accepted idiom: copy-reverse  for i, j := 0, len(src)-1; j >= 0; i, j = i+1, j-1 { dst[i] = src[j] }
-		if isSwap && len(swap.Lhs) == 1 && len(swap.Rhs) == 1 {
-			dl, okL := swap.Lhs[0].(*ast.IndexExpr)
-			sr, okR := swap.Rhs[0].(*ast.IndexExpr)
-			if okL && okR && types.ExprString(dl.Index) == i && types.ExprString(sr.Index) == j {
-				src := types.ExprString(sr.X)
-				zeroK := bigOf(info, cond.Y)
-				goodC := z != nil && z.Sign() == 0 && hi == "len("+src+") - 1" && cond.Op == token.GEQ && types.ExprString(cond.X) == j && zeroK != nil && zeroK.Sign() == 0 &&
-					types.ExprString(post.Rhs[0]) == i+" + 1" && types.ExprString(post.Rhs[1]) == j+" - 1"
-				// dst := make([]byte, len(src))
-				dstOK := false
-				ast.Inspect(fd.Body, func(y ast.Node) bool {
-					if as, isAs := y.(*ast.AssignStmt); isAs && len(as.Lhs) == 1 && len(as.Rhs) == 1 && types.ExprString(as.Lhs[0]) == types.ExprString(dl.X) {
-						if types.ExprString(as.Rhs[0]) == "make([]byte, len("+src+"))" {
-							dstOK = true
-						}
+		// element moves inside the loop: B[a] <- load B2[b]
+		type move struct {
+			dst, src   ssa.Value
+			dIdx, sIdx ssa.Value
+		}
+		var moves []move
+		for b := range l.Blocks {
+			for _, ins := range b.Instrs {
+				st, isSt := ins.(*ssa.Store)
+				if !isSt {
+					continue
+				}
+				da, okD := st.Addr.(*ssa.IndexAddr)
+				ld, okL := st.Val.(*ssa.UnOp)
+				if !okD || !okL || ld.Op != token.MUL {
+					continue
+				}
+				sa, okS := ld.X.(*ssa.IndexAddr)
+				if !okS {
+					continue
+				}
+				moves = append(moves, move{da.X, sa.X, da.Index, sa.Index})
+			}
+		}
+		if len(moves) == 0 {
+			continue
+		}
+		base := moves[0].src
+		isN := func(v ssa.Value) bool {
+			x, isLen := core.IsLenOf(v)
+			return isLen && (x == base || x == moves[0].dst)
+		}
+		leaf := func(v ssa.Value) (linN, bool) {
+			switch {
+			case v == ssa.Value(iPhi):
+				return linN{1, 0, 0, true}, true
+			case jPhi != nil && v == ssa.Value(jPhi):
+				ji := linNLeaf(jInit, func(x ssa.Value) (linN, bool) {
+					if isN(x) {
+						return linN{0, 0, 1, true}, true
 					}
-					return true
-				})
-				if goodC && dstOK {
-					ok = true
-					detail = "full-length reversed copy of " + src + " into " + types.ExprString(dl.X)
+					return linN{}, false
+				}, 0)
+				if !ji.ok {
+					return linN{}, false
+				}
+				return linN{-1, ji.b, ji.n, true}, true // j = jInit - i
+			case isN(v):
+				return linN{0, 0, 1, true}, true
+			}
+			return linN{}, false
+		}
+		fwd, mir := linN{1, 0, 0, true}, linN{-1, -1, 1, true} // i and N-1-i
+		// header condition
+		var cond *ssa.BinOp
+		if ifi, isIf := l.Header.Instrs[len(l.Header.Instrs)-1].(*ssa.If); isIf {
+			cond, _ = ifi.Cond.(*ssa.BinOp)
+		}
+		if cond == nil {
+			continue
+		}
+		bodyOnTrue := l.Blocks[l.Header.Succs[0]]
+		cx, cy := linNLeaf(cond.X, leaf, 0), linNLeaf(cond.Y, leaf, 0)
+		halfBound := false
+		if q, isQ := core.StripConv(cond.Y).(*ssa.BinOp); isQ && q.Op == token.QUO && isN(q.X) {
+			if two, isK := core.ConstInt(q.Y); isK && two == 2 {
+				halfBound = true
+			}
+		}
+		switch {
+		case len(moves) == 2 && moves[0].dst == moves[0].src && moves[1].dst == moves[0].dst && moves[1].src == moves[0].dst:
+			// in-place swap of positions i and N-1-i
+			a0, b0 := linNLeaf(moves[0].dIdx, leaf, 0), linNLeaf(moves[0].sIdx, leaf, 0)
+			a1, b1 := linNLeaf(moves[1].dIdx, leaf, 0), linNLeaf(moves[1].sIdx, leaf, 0)
+			swap := (a0 == fwd && b0 == mir && a1 == mir && b1 == fwd) || (a0 == mir && b0 == fwd && a1 == fwd && b1 == mir)
+			// while i < N-1-i (two pointers), or while i < N/2
+			stop := bodyOnTrue && cond.Op == token.LSS && ((cx == fwd && cy == mir) || (cx == fwd && halfBound))
+			if swap && stop {
+				ok, reversed = true, moves[0].dst
+				detail = "in-place reversal: positions i and len-1-i swapped for every i below the middle, of " + core.PathOf(moves[0].dst)
+			}
+		case len(moves) == 1 && moves[0].dst != moves[0].src:
+			// reversed copy dst[i] = src[N-1-i] (or dst[N-1-i] = src[i]) over the whole length
+			a, b := linNLeaf(moves[0].dIdx, leaf, 0), linNLeaf(moves[0].sIdx, leaf, 0)
+			cp := (a == fwd && b == mir) || (a == mir && b == fwd)
+			whole := bodyOnTrue && ((cond.Op == token.LSS && cx == fwd && cy == (linN{0, 0, 1, true})) ||
+				(cond.Op == token.GEQ && cx == mir && cy == (linN{0, 0, 0, true})))
+			mk, isMk := moves[0].dst.(*ssa.MakeSlice)
+			sized := false
+			if isMk {
+				if x, isLen := core.IsLenOf(mk.Len); isLen && x == moves[0].src {
+					sized = true
 				}
 			}
-			return true
-		}
-		if !isSwap || len(swap.Lhs) != 2 || len(swap.Rhs) != 2 {
-			return true
-		}
-		buf := ""
-		if ix, isIx := swap.Lhs[0].(*ast.IndexExpr); isIx {
-			buf = types.ExprString(ix.X)
-		}
-		want := []string{buf + "[" + i + "]", buf + "[" + j + "]", buf + "[" + j + "]", buf + "[" + i + "]"}
-		got := []string{types.ExprString(swap.Lhs[0]), types.ExprString(swap.Lhs[1]), types.ExprString(swap.Rhs[0]), types.ExprString(swap.Rhs[1])}
-		good := z != nil && z.Sign() == 0 && hi == "len("+buf+") - 1" && cond.Op == token.LSS && types.ExprString(cond.X) == i && types.ExprString(cond.Y) == j &&
-			types.ExprString(post.Rhs[0]) == i+" + 1" && types.ExprString(post.Rhs[1]) == j+" - 1"
-		for k := range want {
-			if want[k] != got[k] {
-				good = false
+			if cp && whole && sized {
+				ok, reversed = true, moves[0].dst
+				detail = "full-length reversed copy of " + core.PathOf(moves[0].src) + " into a buffer of the same length"
 			}
 		}
-		if good {
-			ok = true
-			detail = "full-length two-pointer reversal of " + buf
-		}
-		return true
-	})
+	}
 	// and the reversed buffer is what big.Int.SetBytes receives, and it derives from a parameter
 	sb := findCalls(fn, staticIs("math/big", "Int", "SetBytes"))
 	okFlow := false
-	if len(sb) == 1 {
-		for _, p := range fn.Params {
-			if derivesFromParam(sb[0].Common().Args[1], p.Name()) {
-				okFlow = true
+	if len(sb) == 1 && reversed != nil {
+		arg := sb[0].Common().Args[1]
+		if arg == reversed || core.FlowsTo(reversed, arg, nil) {
+			for _, p := range fn.Params {
+				if derivesFromParam(reversed, p.Name()) || derivesFromParam(arg, p.Name()) {
+					okFlow = true
+				}
 			}
-		}
-		if strings.HasPrefix(detail, "full-length reversed copy") {
-			if _, isMake := sb[0].Common().Args[1].(*ssa.MakeSlice); isMake {
+			if _, isMake := reversed.(*ssa.MakeSlice); isMake {
 				okFlow = true
 			}
 		}
